@@ -35,7 +35,7 @@ ASSUMPTIONS = ["positions that are loop indices or results of find() are enumera
 # abort()/exit() sites outside main() that may stay, with the reason
 ALLOWED_ABORT = {
     "CPPPreprocessor::error": "behind _error_abort, which is only ever assigned false (checked)",
-    "InterfaceMaker::hash_function_signature": "duplicate function signature after 24-bit hash extension; not reachable from parsing input alone (generator back-end, C03 territory)",
+    "InterfaceMaker::hash_function_signature": "reached only for a remap whose signature equals that of the remap in the same primary hash slot; make_function_remap(), the only caller, filters exactly that case out before it calls (checked below: F-C15s showed that the case IS reachable from input - `int f(int, int = 0); int f(int);`)",
 }
 # string-position sites whose guard is an invariant the rule cannot see, keyed by (function, rendered call)
 STRPOS_EXCEPTIONS = {
@@ -145,6 +145,28 @@ def run(ctx):
                 ok = f.name in ALLOWED_ABORT
                 ctx.ob("R15.1", "%s|%s|allowed-site" % (f.name, c["f"]), ok, f.loc(c),
                        "%s() in %s: %s" % (c["f"], f.name, ALLOWED_ABORT.get(f.name, "NOT in the frozen list of reasoned sites")))
+    # premise of the hash_function_signature exemption: its only caller has excluded the same-signature case
+    hf = db.fn("InterfaceMaker::hash_function_signature")
+    callers = [(f, c) for f in db.functions if "/interrogate/" in f.file for c in f.walk() if c.get("k") == "call" and c.get("f") == hf.name]
+    for f, c in callers:
+        def excluded(atom, truth):
+            cm = G.cmp_atom(atom)
+            if not cm:
+                return False
+            op, u, v = cm
+            if not truth:
+                op = G.NEG[op]
+            sides = [strip_casts(peel(z)) if z is not None else None for z in (u, v)]
+            if all(z is not None and z.get("k") == "mem" and (z.get("n") or "").endswith("FunctionRemap::_function_signature") for z in sides):
+                return op == "!="
+            if any(z is not None and z.get("k") == "nullp" for z in sides):
+                return op == "=="          # the slot holds no remap (hash conflict already resolved): not the aborting branch either
+            if any(z is not None and z.get("k") == "call" and callee_short(z) == "end" for z in sides):
+                return op == "=="          # nothing in the slot
+            return False
+        ok = G.gated(f, c, G.edges_where(f, excluded))
+        ctx.ob("R15.1", "%s|hash_function_signature|same-signature-excluded-before-call" % f.name, ok, f.loc(c),
+               "hash_function_signature() is %scalled only after a remap with the same signature in the slot was ruled out" % ("" if ok else "NOT "))
     # _error_abort never becomes true
     writes = []
     for f in db.functions:
